@@ -91,11 +91,14 @@ def frame_check(design, passname):
                     getattr(o, 'val', None) != getattr(w, 'val', None) or \
                     getattr(o, 'reset_value', None) != getattr(w, 'reset_value', None):
                 probs.append('wire %s not copied faithfully' % w.name)
-        ams = {n.op_param[1].name: n.op_param[1] for n in A.logic if n.op in 'm@'}
+        # memories are identified by id (names need not be unique); copies keep the id
+        ams = {n.op_param[1].id: n.op_param[1] for n in A.logic if n.op in 'm@'}
         for n in B.logic:
             if n.op in 'm@':
                 m = n.op_param[1]
-                o = ams.get(m.name)
+                o = ams.get(m.id)
+                if o is not None and o.name != m.name:
+                    o = None
                 if o is None or type(o) is not type(m) or (o.id, o.bitwidth, o.addrwidth, o.asynchronous,
                                                            o.max_read_ports, o.max_write_ports,
                                                            getattr(o, 'pad_with_zeros', None),
